@@ -89,6 +89,11 @@ fn eucinv(ctx: &mut Ctx, vs: &[Tab], extra: &str) {
 }
 
 fn euccov(ctx: &mut Ctx, s: &Tab, sheets: usize, extra: &str) {
+    euccov_capped(ctx, s, sheets, usize::MAX, extra)
+}
+
+/// at most `cap` of the covers (seeded sample local to the case, order kept)
+fn euccov_capped(ctx: &mut Ctx, s: &Tab, sheets: usize, cap: usize, extra: &str) {
     if !ctx.peek_mine() {
         ctx.skip();
         return;
@@ -102,6 +107,16 @@ fn euccov(ctx: &mut Ctx, s: &Tab, sheets: usize, extra: &str) {
             ctx.skip();
             return;
         }
+    };
+    let covs: Vec<Tab> = if covs.len() <= cap {
+        covs
+    } else {
+        let mut rng = Rng::new(ctx.seed.wrapping_mul(7919).wrapping_add(covs.len() as u64 * 31 + s.size as u64));
+        let mut idx: Vec<usize> = (0..covs.len()).collect();
+        rng.shuffle(&mut idx);
+        let mut keep = idx[..cap].to_vec();
+        keep.sort();
+        keep.into_iter().map(|i| covs[i].clone()).collect()
     };
     // the first entry of `covers` is the one-sheeted cover (the symbol itself): kept, it is a
     // renumbering-free repeat and costs little
@@ -159,7 +174,12 @@ fn main() {
         ograph(&mut ctx, &s, "corpus");
         let vs = variants(&s, &mut rng, 3);
         eucinv(&mut ctx, &vs, "corpus");
-        euccov(&mut ctx, &s, 2, "corpus");
+        // the corpus is closed under covers with few sheets: ≤ 2 (quick), ≤ 4 capped (thorough)
+        if th {
+            euccov_capped(&mut ctx, &s, 4, 40, "corpus");
+        } else {
+            euccov(&mut ctx, &s, 2, "corpus");
+        }
         if th {
             for (k, v) in vs[1..].iter().enumerate() {
                 euc(&mut ctx, "euc_corpus", v, k == 0, 0, "corpus-variant");
